@@ -34,6 +34,8 @@ func main() {
 			}
 		}
 		os.Exit(workerMain(catsFile, full))
+	case "record":
+		os.Exit(recordMain(os.Args[2:]))
 	case "prop":
 		os.Exit(propMain(os.Args[2:]))
 	case "replay":
